@@ -1000,7 +1000,7 @@ def gen_for(g: L.G, root: Any, m: Any, p: S.Prop, cname: str, mi: int, shape: Op
         n = len(w)
         if p.kind in ('rawmeta', 'meta') and g.p(0.5) and not shape:
             return _gen_mapop(g, base_op, m, p, w)
-        name = shape or g.pick(LIST_OPS + ['discard'])
+        name = shape or g.pick(LIST_OPS + ['discard', 'reverse'])
         return _gen_listop(g, 'view', base_op, name, n, lambda: donor_for(g, m, p, misfit), misfit)
     if p.kind in ('sview', 'cview'):
         w = getattr(m, p.name)
